@@ -908,7 +908,8 @@ func c18Bind(c *Ctx) {
 		if _, isMap := fn.Params[0].Type().Underlying().(*types.Map); !isMap {
 			continue
 		}
-		var m, u *ssa.Call
+		var m, u, dec *ssa.Call
+		var opts []*ssa.Call
 		ir.EachInstr(fn, func(_ *ssa.BasicBlock, _ int, in ssa.Instruction) {
 			if call, ok := in.(*ssa.Call); ok {
 				switch ir.CallName(call) {
@@ -918,9 +919,25 @@ func c18Bind(c *Ctx) {
 					}
 				case "encoding/json.Unmarshal":
 					u = call
+				case "(*encoding/json.Decoder).Decode":
+					dec = call
+				case "(*encoding/json.Decoder).UseNumber", "(*encoding/json.Decoder).DisallowUnknownFields":
+					opts = append(opts, call)
 				}
 			}
 		})
+		if m != nil && u == nil && dec != nil && ir.Unwrap(dec.Call.Args[len(dec.Call.Args)-1]) == ssa.Value(fn.Params[1]) {
+			// a binder that decodes through a json.Decoder: equivalent to Unmarshal only with the decoder's defaults
+			binder = fn
+			what := "a json.Decoder"
+			for _, o := range opts {
+				what += " with " + strings.TrimPrefix(ir.CallName(o), "(*encoding/json.Decoder).")
+			}
+			c.R.Check(len(opts) == 0, "R-bind", "binder "+fname(fn)+": decoder defaults", c.Pos(dec.Pos()),
+				"the target is decoded with encoding/json's default rules (as json.Unmarshal does)",
+				sprintf("%s binds the arguments through %s: numbers bound to interface-typed members arrive as json.Number instead of float64 (or unknown members are refused), so the typed handler does not receive the value whose JSON encoding the caller sent", fname(fn), what))
+			continue
+		}
 		if m != nil && u != nil {
 			binder = fn
 			oc := originCall(u.Call.Args[0])
